@@ -16,8 +16,10 @@ struct scanner {
 	int chr;
 	bool usebuf;
 	bool sawspace;
+	/* the second of two periods was read ahead and is the next token */
+	bool period;
 	FILE *file;
-	struct location loc;
+	struct location loc, periodloc;
 	struct buffer buf;
 	struct scanner *next;
 };
@@ -279,10 +281,14 @@ static int
 scankind(struct scanner *s, struct location *loc)
 {
 	enum tokenkind tok;
-	struct location oldloc;
 
 again:
 	*loc = s->loc;
+	if (s->period) {
+		s->period = false;
+		*loc = s->periodloc;
+		goto period;
+	}
 	switch (s->chr) {
 	case ' ':
 	case '\t':
@@ -355,18 +361,17 @@ again:
 		return TRBRACE;
 	case '.':
 		nextchar(s);
+	period:
 		if (isdigit(s->chr)) {
 			bufadd(&s->buf, '.');
 			return number(s);
 		}
 		if (s->chr != '.')
 			return TPERIOD;
-		oldloc = s->loc;
+		s->periodloc = s->loc;
 		nextchar(s);
 		if (s->chr != '.') {
-			ungetc(s->chr, s->file);
-			s->loc = oldloc;
-			s->chr = '.';
+			s->period = true;
 			return TPERIOD;
 		}
 		nextchar(s);
@@ -425,6 +430,7 @@ scanfrom(const char *name, FILE *file)
 	s->buf.len = 0;
 	s->buf.cap = 0;
 	s->usebuf = false;
+	s->period = false;
 	s->loc.file = name;
 	s->loc.line = 1;
 	s->loc.col = 0;
